@@ -111,6 +111,24 @@ pub fn case(ctx: &mut CaseCtx) {
         }
         ctx.count("name-collision:common-type-named-like-entity-type");
     }
+    // an action id that is not an identifier (the Cedar syntax must quote and escape it; JSON keys carry it verbatim)
+    if ctx.rng.chance(1, 3) && !gs.actions.is_empty() {
+        let k = ctx.rng.below(gs.actions.len());
+        let new_id = ctx.rng.pick(&["back\\slash", "q\"uote", "line\nbreak", "\u{3c0}", "it's", "a\\\\b\\"]).to_string();
+        let old_uid = gs.actions[k].uid();
+        if !gs.actions.iter().any(|a| a.ns == gs.actions[k].ns && a.id == new_id) {
+            gs.actions[k].id = new_id;
+            let new_uid = gs.actions[k].uid();
+            for a in gs.actions.iter_mut() {
+                for m in a.member_of.iter_mut() {
+                    if *m == old_uid {
+                        *m = new_uid.clone();
+                    }
+                }
+            }
+            ctx.count("hostile-action-id");
+        }
+    }
     let json_only = one_sided || name_collision;
     let st_json = PrintStyle { unqualified: ctx.rng.bool(), loose_json: !name_collision && ctx.rng.bool() };
     let st_cedar = PrintStyle { unqualified: ctx.rng.bool(), loose_json: false };
